@@ -187,7 +187,6 @@ class Program:
             _nf.normalise(tree)
             _alpha.normalise_comparisons(tree)
             _alpha.normalise_negated_tests(tree)
-            _alpha.normalise_conditional_assignments(tree)
         self.inlined = []
         self.renamed = []
         self.folded_constants = []
@@ -199,11 +198,11 @@ class Program:
                     for tree in trees.values():
                         _nf.normalise(tree)
             self.inlined = _inline.inline_new_helpers(trees, self._known_functions)
+        # (after inlining: a helper called in one arm of an if/else is a statement there)
+        for tree in trees.values():
             if self.inlined:
-                # the spliced code may again contain the normalisable spellings
-                for tree in trees.values():
-                    _alpha.normalise_negated_tests(tree)
-                    _alpha.normalise_conditional_assignments(tree)
+                _alpha.normalise_negated_tests(tree)
+            _alpha.normalise_conditional_assignments(tree)
         for name, tree in trees.items():
             if self._alpha_ref is not None:
                 _alpha.normalise_module(tree, name, self._alpha_ref, self.alpha_renames,
